@@ -77,7 +77,7 @@ func TestVerifC01Seq(t *testing.T) {
 					}
 					return out
 				},
-				mayDelete:       func(n string) bool { return true },
+				mayDelete: func(n string) bool { return true },
 				onDelete: func(n string) {
 					for _, p := range m.pods {
 						if p.inMgr && p.group == n {
